@@ -1,4 +1,5 @@
 import GdVerif.Lemmas.Gs3Whole
+import GdVerif.Lemmas.Gs3Extra
 import GdVerif.Lemmas.QSteps
 import GdVerif.Spec.Gs3Faults
 /-
@@ -570,7 +571,29 @@ SPEC's packets), and whatever follows -/
 def afterValid (arrival : List Bytes) (q : List Delivery) : List Delivery :=
   (arrival.drop (consumed Acc.init (arrival.map decodeFrag))).map .data ++ q
 
-/-- `get_server_packets` of GameSpy 3 (multi-packet mode, the default payload) under a plan -/
+/-- `get_server_packets` of GameSpy 3 (multi-packet mode, the default payload) under a plan, at the level of the wire:
+the server answers the handshake with challenge `c` and sends the data packets of ANY non-empty list of non-empty
+payloads `ps` (at most 128, each datagram within the client's buffer) — what the payloads carry plays no part in the
+retry logic -/
+theorem steps_unit_wire (s : Sock) (hudp : s.tcp = false) (c : Int) (hlo : -(2 ^ 31 : Int) ≤ c) (hhi : c < 2 ^ 31)
+    (unknown : List Nat) (ps : List Bytes) (hne : ps ≠ []) (hcount : ps.length ≤ 128) (hpay : ∀ p ∈ ps, p ≠ [])
+    (hsize : ∀ d ∈ packetsFrom unknown ps.length 0 ps, d.length ≤ PACKET_SIZE)
+    (arrival : List Bytes) (harr : arrival.Perm (packetsFrom unknown ps.length 0 ps)) (retries : Nat) (plan : Plan)
+    (hplan : wfPlan retries (packetsFrom unknown ps.length 0 ps) plan = true) (q : List Delivery) (fs : List Bool)
+    (sn : List (Bytes × Bool)) :
+    Steps s (getServerPackets s retries DEFAULT_PAYLOAD false) (packetsOutcome ps plan)
+      ⟨scriptAt c plan arrival ++ q, faultyFaults plan ++ fs, sn⟩
+      ⟨afterOf plan (afterValid arrival q) q, fs, sn ++ sendsWith (dataRequest c) plan⟩ := by
+  unfold getServerPackets
+  rw [impl_eq]
+  exact steps_unitOf s hudp DEFAULT_PAYLOAD (packetsFrom unknown ps.length 0 ps) (recvAll s)
+    (tailOk_recvAll s hudp unknown ps hcount hsize) c hlo hhi
+    (dataRequest c) (dataRequest_eq c) arrival ps q (afterValid arrival q)
+    (fun fs sn => steps_recvAll_ok s hudp q fs sn arrival ps (fun d hd => hsize d (harr.subset hd))
+      (feed_arrival_ps unknown ps hne hcount hpay hsize arrival harr))
+    retries plan hplan fs sn
+
+/-- … for the SPEC's server without extra field sections -/
 theorem steps_unit (s : Sock) (hudp : s.tcp = false) (cfg : Config) (st : State) (h : wf cfg st = true)
     (arrival : List Bytes) (harr : arrival.Perm (dataPackets cfg st)) (retries : Nat) (plan : Plan)
     (hplan : wfPlan retries (dataPackets cfg st) plan = true) (q : List Delivery) (fs : List Bool)
@@ -579,18 +602,39 @@ theorem steps_unit (s : Sock) (hudp : s.tcp = false) (cfg : Config) (st : State)
       ⟨faultyScript cfg plan arrival ++ q, faultyFaults plan ++ fs, sn⟩
       ⟨afterOf plan (afterValid arrival q) q, fs, sn ++ faultySends cfg plan⟩ := by
   obtain ⟨hcount, hpay, hsize, hlo, hhi⟩ := wf_wire cfg st h
-  unfold getServerPackets
-  rw [impl_eq]
-  exact steps_unitOf s hudp DEFAULT_PAYLOAD (dataPackets cfg st) (recvAll s)
-    (tailOk_recvAll s hudp cfg.unknown (payloads cfg st) hcount hsize) cfg.challenge hlo hhi
-    (dataRequest cfg.challenge) (dataRequest_eq cfg.challenge) arrival (payloads cfg st) q (afterValid arrival q)
-    (fun fs sn => steps_recvAll_ok s hudp q fs sn arrival (payloads cfg st) (fun d hd => hsize d (harr.subset hd))
-      (feed_arrival cfg st hcount hpay hsize arrival harr))
-    retries plan hplan fs sn
+  exact steps_unit_wire s hudp cfg.challenge hlo hhi cfg.unknown (payloads cfg st) (payloads_ne_nil cfg st) hcount hpay
+    hsize arrival harr retries plan hplan q fs sn
 
 /-- The whole exchange (`query`, `query_vars` = this with their post-processing) on the script of a plan followed by
-anything: the post-processing is applied to the outcome C10 prescribes for the packets, and the datagrams sent are the
-plan's. -/
+anything, at the level of the wire (see `steps_unit_wire`): the post-processing is applied to the outcome C10 prescribes
+for the packets, and the datagrams sent are the plan's. -/
+theorem exchange_faulty_wire (c : Int) (hlo : -(2 ^ 31 : Int) ≤ c) (hhi : c < 2 ^ 31)
+    (unknown : List Nat) (ps : List Bytes) (hne : ps ≠ []) (hcount : ps.length ≤ 128) (hpay : ∀ p ∈ ps, p ≠ [])
+    (hsize : ∀ d ∈ packetsFrom unknown ps.length 0 ps, d.length ≤ PACKET_SIZE) (port retries : Nat) {α : Type}
+    (post : List Bytes → Res α) (arrival : List Bytes) (harr : arrival.Perm (packetsFrom unknown ps.length 0 ps))
+    (plan : Plan) (hplan : wfPlan retries (packetsFrom unknown ps.length 0 ps) plan = true) (restQ : List Delivery)
+    (restF : List Bool) :
+    (exchange port retries DEFAULT_PAYLOAD false post
+        (Net.init [.opened (scriptAt c plan arrival ++ restQ)] (faultyFaults plan ++ restF))).1
+      = (packetsOutcome ps plan >>= post)
+    ∧ Gd.sentOf (exchange port retries DEFAULT_PAYLOAD false post
+        (Net.init [.opened (scriptAt c plan arrival ++ restQ)] (faultyFaults plan ++ restF))).2.log
+      = sendsWith (dataRequest c) plan := by
+  unfold exchange
+  rw [Q.bind_apply]
+  have ho : openSock false port (Net.init [.opened (scriptAt c plan arrival ++ restQ)] (faultyFaults plan ++ restF))
+      = (.ok ⟨0, port, false⟩,
+          ⟨[], [scriptAt c plan arrival ++ restQ], faultyFaults plan ++ restF, [.opened 0 false port false]⟩) := rfl
+  rw [ho]
+  have hS := (Steps.bind_res (k := post) (g := fun packets => Q.lift (post packets))
+    (steps_unit_wire ⟨0, port, false⟩ rfl c hlo hhi unknown ps hne hcount hpay hsize arrival harr retries plan hplan
+      restQ restF [])
+    (fun a _ => Steps.lift _ _ _)).outcome
+    ⟨[], [scriptAt c plan arrival ++ restQ], faultyFaults plan ++ restF, [.opened 0 false port false]⟩
+    ⟨rfl, by simp, by simp, rfl⟩
+  simpa using hS
+
+/-- … for the SPEC's server without extra field sections -/
 theorem exchange_faulty (cfg : Config) (st : State) (h : wf cfg st = true) (port retries : Nat) {α : Type}
     (post : List Bytes → Res α) (arrival : List Bytes) (harr : arrival.Perm (dataPackets cfg st))
     (plan : Plan) (hplan : wfPlan retries (dataPackets cfg st) plan = true) (restQ : List Delivery)
@@ -601,18 +645,25 @@ theorem exchange_faulty (cfg : Config) (st : State) (h : wf cfg st = true) (port
     ∧ Gd.sentOf (exchange port retries DEFAULT_PAYLOAD false post
         (Net.init [.opened (faultyScript cfg plan arrival ++ restQ)] (faultyFaults plan ++ restF))).2.log
       = faultySends cfg plan := by
-  unfold exchange
-  rw [Q.bind_apply]
-  have ho : openSock false port (Net.init [.opened (faultyScript cfg plan arrival ++ restQ)] (faultyFaults plan ++ restF))
-      = (.ok ⟨0, port, false⟩,
-          ⟨[], [faultyScript cfg plan arrival ++ restQ], faultyFaults plan ++ restF, [.opened 0 false port false]⟩) := rfl
-  rw [ho]
-  have hS := (Steps.bind_res (k := post) (g := fun packets => Q.lift (post packets))
-    (steps_unit ⟨0, port, false⟩ rfl cfg st h arrival harr retries plan hplan restQ restF [])
-    (fun a _ => Steps.lift _ _ _)).outcome
-    ⟨[], [faultyScript cfg plan arrival ++ restQ], faultyFaults plan ++ restF, [.opened 0 false port false]⟩
-    ⟨rfl, by simp, by simp, rfl⟩
-  simpa using hS
+  obtain ⟨hcount, hpay, hsize, hlo, hhi⟩ := wf_wire cfg st h
+  exact exchange_faulty_wire cfg.challenge hlo hhi cfg.unknown (payloads cfg st) (payloads_ne_nil cfg st) hcount hpay
+    hsize port retries post arrival harr plan hplan restQ restF
+
+/-- … and for the SPEC's server sending extra field sections (`ConfigX`, any allowed sections at any positions): the
+domain of the decoding theorems (`C04_gs3_query_extra`) -/
+theorem exchange_faultyX (cfg : ConfigX) (st : State) (h : wfX cfg st = true) (port retries : Nat) {α : Type}
+    (post : List Bytes → Res α) (arrival : List Bytes) (harr : arrival.Perm (dataPacketsX cfg st))
+    (plan : Plan) (hplan : wfPlan retries (dataPacketsX cfg st) plan = true) (restQ : List Delivery)
+    (restF : List Bool) :
+    (exchange port retries DEFAULT_PAYLOAD false post
+        (Net.init [.opened (faultyScriptX cfg plan arrival ++ restQ)] (faultyFaults plan ++ restF))).1
+      = (faultyPacketsX cfg st plan >>= post)
+    ∧ Gd.sentOf (exchange port retries DEFAULT_PAYLOAD false post
+        (Net.init [.opened (faultyScriptX cfg plan arrival ++ restQ)] (faultyFaults plan ++ restF))).2.log
+      = faultySendsX cfg plan := by
+  obtain ⟨hcount, hpay, hsize, hlo, hhi⟩ := wfX_wire cfg st h
+  exact exchange_faulty_wire cfg.challenge hlo hhi cfg.unknown (payloadsX cfg st) (payloadsX_ne_nil cfg st) hcount hpay
+    hsize port retries post arrival harr plan hplan restQ restF
 
 /-! ### outcomes and counting for the property theorems -/
 
@@ -623,6 +674,25 @@ theorem faultyExpected_eq (cfg : Config) (st : State) (h : wf cfg st = true) (pl
   | valid => simpa using buildResponse_spec cfg st h
   | gaveUp => rfl
   | malformed stage got m => rfl
+
+theorem faultyExpected_eqX (cfg : ConfigX) (st : State) (h : wfX cfg st = true) (plan : Plan) :
+    (faultyPacketsX cfg st plan >>= buildResponse) = faultyExpected st plan := by
+  unfold faultyPacketsX packetsOutcome faultyExpected
+  cases plan.ending with
+  | valid => simpa using buildResponseX_spec cfg st h
+  | gaveUp => rfl
+  | malformed stage got m => rfl
+
+/-- a reply without extra sections seen as a `ConfigX`: same scripts, same sends, same packets -/
+theorem faulty_toX (cfg : Config) (st : State) (plan : Plan) (arrival : List Bytes) :
+    faultyScriptX cfg.toX plan arrival = faultyScript cfg plan arrival
+    ∧ faultySendsX cfg.toX plan = faultySends cfg plan
+    ∧ faultyPacketsX cfg.toX st plan = faultyPackets cfg st plan
+    ∧ dataPacketsX cfg.toX st = dataPackets cfg st := by
+  refine ⟨rfl, rfl, ?_, ?_⟩
+  · simp only [faultyPacketsX, faultyPackets, payloadsX_toX]
+  · simp only [dataPacketsX, dataPackets, payloadsX_toX]
+    rfl
 
 theorem dataRequest_ne (c : Int) : (dataRequest c == handshakeRequest) = false := by
   simp [dataRequest, handshakeRequest, sessionId]
@@ -652,6 +722,9 @@ theorem attemptsOf_sendsWith (dreq : Bytes) (hne : (dreq == handshakeRequest) = 
   | valid => simp [Ending.sendsWith, attemptsOf, hne]
   | gaveUp => rfl
   | malformed stage got m => cases stage <;> simp [Ending.sendsWith, attemptsOf, hne]
+
+theorem attemptsOf_planX (cfg : ConfigX) (plan : Plan) : attemptsOf (faultySendsX cfg plan) = plan.attempts :=
+  attemptsOf_sendsWith _ (dataRequest_ne _) plan
 
 theorem attemptsOf_plan (cfg : Config) (plan : Plan) : attemptsOf (faultySends cfg plan) = plan.attempts :=
   attemptsOf_sendsWith _ (dataRequest_ne cfg.challenge) plan
